@@ -214,7 +214,24 @@ class Model:
 
     # ---------------------------------------------------------------- XML
     def xml(self, noise=None):
-        nz = noise or {}
+        nz = dict(self.noise)
+        nz.update(noise or {})
+        xl = [nz.get('extra_labels', 0)]
+
+        def sprinkle(labs, ind3):
+            """labels that do not go to the grammar (comments, test code, empty ones) before, between and after the ones that do"""
+            if not xl[0]:
+                return labs
+            extra = ['<label kind="comments">a comment &amp; more</label>', '<label kind="testcodeEnter">enter(1);</label>', '<label kind="testcodeExit">leave();</label>',
+                     '<label kind="comments" x="3" y="4"></label>', '<label kind="comments">/* not closed</label>']
+            res = []
+            for k in range(len(labs) + 1):
+                xl[0] = (xl[0] * 1103515245 + 12345) % (1 << 31)
+                if (xl[0] >> 8) % 3 == 0:
+                    res.append(ind3 + extra[(xl[0] >> 12) % len(extra)])
+                if k < len(labs):
+                    res.append(labs[k])
+            return res
         nl = nz.get('nl', '\n')
         ind = nz.get('indent', '\t')
         out = ['<?xml version="1.0" encoding="utf-8"?>']
@@ -222,7 +239,29 @@ class Model:
             out.append("<!DOCTYPE nta PUBLIC '-//Uppaal Team//DTD Flat System 1.6//EN' 'http://www.it.uu.se/research/group/darts/uppaal/flat-1_6.dtd'>")
         out.append('<nta>')
 
+        sp = [nz.get('split', 0)]
+
         def block(text):
+            if sp[0] and ']]>' not in text and '--' not in text:
+                # the same character data spelled in pieces: XML comments before, inside and after it, CDATA sections for parts of it
+                sp[0] = (sp[0] * 1103515245 + 12345) % (1 << 31)
+                v = (sp[0] >> 8) % 8
+                cut = text.find(' ', len(text) // 3)
+                if cut < 0:
+                    cut = len(text)
+                a_, b_ = text[:cut], text[cut:]
+                if v == 0:
+                    return escape(a_) + '<!-- c -->' + escape(b_)
+                if v == 1:
+                    return '<!-- leading -->' + escape(text)
+                if v == 2:
+                    return escape(text) + '<!-- trailing\n comment -->'
+                if v == 3:
+                    return escape(a_) + '<![CDATA[' + b_ + ']]>'
+                if v == 4:
+                    return '<![CDATA[' + a_ + ']]>' + escape(b_)
+                if v == 5:
+                    return '<![CDATA[' + a_ + ']]><![CDATA[' + b_ + ']]>'
             if nz.get('cdata') and ']]>' not in text:
                 return '<![CDATA[' + text + ']]>'
             return escape(text)
@@ -246,7 +285,7 @@ class Model:
                     labs.append(ind * 3 + '<label kind="exponentialrate">' + block(R(l.rate)) + '</label>')
                 if nz.get('rate_first'):
                     labs.reverse()      # the reader takes the labels of a location in any order
-                out += labs
+                out += sprinkle(labs, ind * 3)
                 if nz.get('comments'):
                     out.append(ind * 3 + '<label kind="comments">a comment &amp; more</label>')
                 if l.urgent:
@@ -264,16 +303,18 @@ class Model:
                 out.append(ind * 2 + '<transition%s>' % a)
                 out.append(ind * 3 + '<source ref="%s"/>' % e.src[2])
                 out.append(ind * 3 + '<target ref="%s"/>' % e.dst[2])
+                labs = []
                 if e.select:
-                    out.append(ind * 3 + '<label kind="select" x="0" y="0">' + block(', '.join('%s : %s' % (s[0], s[1]) for s in e.select)) + '</label>')
+                    labs.append(ind * 3 + '<label kind="select" x="0" y="0">' + block(', '.join('%s : %s' % (s[0], s[1]) for s in e.select)) + '</label>')
                 if e.guard is not None:
-                    out.append(ind * 3 + '<label kind="guard">' + block(R(e.guard)) + '</label>')
+                    labs.append(ind * 3 + '<label kind="guard">' + block(R(e.guard)) + '</label>')
                 if e.sync is not None:
-                    out.append(ind * 3 + '<label kind="synchronisation">' + block(R(e.sync[0]) + e.sync[1]) + '</label>')
+                    labs.append(ind * 3 + '<label kind="synchronisation">' + block(R(e.sync[0]) + e.sync[1]) + '</label>')
                 if e.update is not None:
-                    out.append(ind * 3 + '<label kind="assignment">' + block(', '.join(R(u) for u in e.update)) + '</label>')
+                    labs.append(ind * 3 + '<label kind="assignment">' + block(', '.join(R(u) for u in e.update)) + '</label>')
                 if e.prob is not None:
-                    out.append(ind * 3 + '<label kind="probability">' + block(R(e.prob)) + '</label>')
+                    labs.append(ind * 3 + '<label kind="probability">' + block(R(e.prob)) + '</label>')
+                out += sprinkle(labs, ind * 3)
                 if nz.get('nails'):
                     out.append(ind * 3 + '<nail x="1" y="1"/>')
                 out.append(ind * 2 + '</transition>')
@@ -434,7 +475,7 @@ def parse_type(s):
         if pos[0] < len(s) and s[pos[0]] == '(':
             pos[0] += 1
             while True:
-                m = re.match(r'([A-Za-z_0-9#:]*?):(?=[A-Z<])', s[pos[0]:])
+                m = re.match(r'([A-Za-z_0-9#$:]*?):(?=[A-Z<])', s[pos[0]:])
                 label = ''
                 if m:
                     label = m.group(1)
@@ -648,6 +689,10 @@ def models(draw, max_templates=3, sizes='normal', for_xta=False, need_clean=Fals
     cnt = [0]
 
     special = draw(st.integers(0, 3)) == 0      # a quarter of the models use unusual identifiers where they can
+    if draw(st.integers(0, 2)) == 0:            # a third carry labels that do not go to the grammar between the ones that do
+        m.noise = {'extra_labels': draw(st.integers(1, 10 ** 6))}
+    if draw(st.integers(0, 5)) == 0:            # a sixth spell their character data in pieces (XML comments, CDATA sections)
+        m.noise['split'] = draw(st.integers(1, 10 ** 6))
     used = set()
 
     def fresh(prefix):
